@@ -213,7 +213,14 @@ static int do_call(void)
     struct arr A[4]; int na = 0;
     for (int i = 6; i < NW && na < 4; i++) parse_arr(W[i], &A[na++]);
     int B = idx_of("CGNSBase_t"), Z = idx_of("Zone_t"), S = idx_of("FlowSolution_t"), E = idx_of("Elements_t"),
-        BC = idx_of("BC_t"), DS = idx_of("BCDataSet_t"), F = idx_of("Family_t"), G = idx_of("GeometryReference_t");
+        BC = idx_of("BC_t"), DS = idx_of("BCDataSet_t"), F = idx_of("Family_t"), G = idx_of("GeometryReference_t"),
+        P = idx_of("ParticleZone_t"), PS = idx_of("ParticleSolution_t"), J1 = idx_of("GridConnectivity1to1_t"),
+        J = idx_of("GridConnectivity_t");
+    static const char *MODELS[10] = {"GasModel_t", "ViscosityModel_t", "ThermalConductivityModel_t", "TurbulenceClosure_t",
+        "TurbulenceModel_t", "ThermalRelaxationModel_t", "ChemicalKineticsModel_t", "EMElectricFieldModel_t",
+        "EMMagneticFieldModel_t", "EMConductivityModel_t"};
+    static const char *PMODELS[5] = {"ParticleCollisionModel_t", "ParticleBreakupModel_t", "ParticleForceModel_t",
+        "ParticleWallInteractionModel_t", "ParticlePhaseChangeModel_t"};
     int out = 0, rc = -7, has_index = 1;
     cgsize_t *cs = (cgsize_t *)calloc(ni + 8, sizeof(cgsize_t));
     int *is = (int *)calloc(ni + 8, sizeof(int));
@@ -284,6 +291,51 @@ static int do_call(void)
     else if (!strcmp(f, "geo")) rc = cg_geo_write(fn, B, F, name, strs[0], strs[1], &out);
     else if (!strcmp(f, "part")) rc = cg_part_write(fn, B, F, G, name, &out);
     else if (!strcmp(f, "family_name")) { rc = cg_family_name_write(fn, B, F, name, strs[0]); has_index = 0; }
+    else if (!strcmp(f, "particle")) rc = cg_particle_write(fn, B, name, cs[0], &out);
+    else if (!strcmp(f, "particle_coord_node")) rc = cg_particle_coord_node_write(fn, B, P, name, &out);
+    else if (!strcmp(f, "particle_coord") && SL.on) {
+        cgsize_t a1[12], a2[12], m1[12], m2[12]; size_t off;
+        rc = 0;
+        for (int k = 0; !rc && slab(k, A[0].nd, A[0].dims, a1, a2, m1, m2, &off); k++)
+            rc = SL.partial ? cg_particle_coord_partial_write(fn, B, P, dtype_of(A[0].dt), name, a1, a2, A[0].data + off * dt_bytes(dtype_of(A[0].dt)), &out)
+                            : cg_particle_coord_general_write(fn, B, P, name, dtype_of(A[0].dt), a1, a2, dtype_of(A[0].dt), A[0].dims, m1, m2, A[0].data, &out);
+    }
+    else if (!strcmp(f, "particle_coord")) rc = cg_particle_coord_write(fn, B, P, dtype_of(A[0].dt), name, A[0].data, &out);
+    else if (!strcmp(f, "particle_sol")) rc = cg_particle_sol_write(fn, B, P, name, &out);
+    else if (!strcmp(f, "particle_sol_ptset"))
+        rc = cg_particle_sol_ptset_write(fn, B, P, name, (CGNS_ENUMT(PointSetType_t))is[0], cs[1], cs + 2, &out);
+    else if (!strcmp(f, "particle_field") && SL.on) {
+        cgsize_t a1[12], a2[12], m1[12], m2[12]; size_t off;
+        rc = 0;
+        for (int k = 0; !rc && slab(k, A[0].nd, A[0].dims, a1, a2, m1, m2, &off); k++)
+            rc = SL.partial ? cg_particle_field_partial_write(fn, B, P, PS, dtype_of(A[0].dt), name, a1, a2, A[0].data + off * dt_bytes(dtype_of(A[0].dt)), &out)
+                            : cg_particle_field_general_write(fn, B, P, PS, name, dtype_of(A[0].dt), a1, a2, dtype_of(A[0].dt), A[0].dims, m1, m2, A[0].data, &out);
+    }
+    else if (!strcmp(f, "particle_field")) rc = cg_particle_field_write(fn, B, P, PS, dtype_of(A[0].dt), name, A[0].data, &out);
+    else if (!strcmp(f, "piter")) { rc = cg_piter_write(fn, B, P, name); has_index = 0; }
+    else if (!strcmp(f, "subreg_ptset"))
+        rc = cg_subreg_ptset_write(fn, B, Z, name, is[0], (CGNS_ENUMT(GridLocation_t))is[1], (CGNS_ENUMT(PointSetType_t))is[2], cs[3], cs + 4, &out);
+    else if (!strcmp(f, "subreg_bcname")) rc = cg_subreg_bcname_write(fn, B, Z, name, is[0], strs[0], &out);
+    else if (!strcmp(f, "subreg_gcname")) rc = cg_subreg_gcname_write(fn, B, Z, name, is[0], strs[0], &out);
+    else if (!strcmp(f, "bc_wallfunction")) { rc = cg_bc_wallfunction_write(fn, B, Z, BC, (CGNS_ENUMT(WallFunctionType_t))is[0]); has_index = 0; }
+    else if (!strcmp(f, "bc_area")) {
+        float sa; memcpy(&sa, A[0].data, 4);
+        rc = cg_bc_area_write(fn, B, Z, BC, (CGNS_ENUMT(AreaType_t))is[0], sa, strs[0]); has_index = 0;
+    }
+    else if (!strcmp(f, "periodic")) {
+        rc = J1 ? cg_1to1_periodic_write(fn, B, Z, J1, (float *)A[0].data, (float *)A[1].data, (float *)A[2].data)
+                : cg_conn_periodic_write(fn, B, Z, J, (float *)A[0].data, (float *)A[1].data, (float *)A[2].data);
+        has_index = 0;
+    }
+    else if (!strcmp(f, "average")) {
+        rc = J1 ? cg_1to1_average_write(fn, B, Z, J1, (CGNS_ENUMT(AverageInterfaceType_t))is[0])
+                : cg_conn_average_write(fn, B, Z, J, (CGNS_ENUMT(AverageInterfaceType_t))is[0]);
+        has_index = 0;
+    }
+    else if (!strcmp(f, "sol_ptset"))
+        rc = cg_sol_ptset_write(fn, B, Z, name, (CGNS_ENUMT(GridLocation_t))is[0], (CGNS_ENUMT(PointSetType_t))is[1], cs[2], cs + 3, &out);
+    else if (!strcmp(f, "discrete_ptset"))
+        rc = cg_discrete_ptset_write(fn, B, Z, name, (CGNS_ENUMT(GridLocation_t))is[0], (CGNS_ENUMT(PointSetType_t))is[1], cs[2], cs + 3, &out);
     else if (!strcmp(f, "discrete")) rc = cg_discrete_write(fn, B, Z, name, &out);
     else if (!strcmp(f, "rigid_motion")) rc = cg_rigid_motion_write(fn, B, Z, name, (CGNS_ENUMT(RigidGridMotionType_t))is[0], &out);
     else if (!strcmp(f, "arbitrary_motion"))
@@ -336,6 +388,14 @@ static int do_call(void)
         else if (!strcmp(f, "rotating")) rc = cg_rotating_write((float *)A[1].data, (float *)A[0].data);
         else if (!strcmp(f, "equationset")) rc = cg_equationset_write(is[0]);
         else if (!strcmp(f, "governing")) rc = cg_governing_write((CGNS_ENUMT(GoverningEquationsType_t))is[0]);
+        else if (!strcmp(f, "model")) rc = (is[0] >= 0 && is[0] < 10) ? cg_model_write(MODELS[is[0]], (CGNS_ENUMT(ModelType_t))is[1]) : -8;
+        else if (!strcmp(f, "diffusion")) rc = cg_diffusion_write(is);
+        else if (!strcmp(f, "particle_equationset")) rc = cg_particle_equationset_write(is[0]);
+        else if (!strcmp(f, "particle_governing")) rc = cg_particle_governing_write((CGNS_ENUMT(ParticleGoverningEquationsType_t))is[0]);
+        else if (!strcmp(f, "particle_model"))
+            rc = (is[0] >= 0 && is[0] < 5) ? cg_particle_model_write(PMODELS[is[0]], (CGNS_ENUMT(ParticleModelType_t))is[1]) : -8;
+        else if (!strcmp(f, "bcdataset")) rc = cg_bcdataset_write(name, (CGNS_ENUMT(BCType_t))is[0], (CGNS_ENUMT(BCDataType_t))is[1]);
+        else if (!strcmp(f, "node_family")) { rc = cg_node_family_write(name, &out); has_index = 1; }
         else rc = -8;
     }
     ERR(rc, f);
@@ -444,6 +504,7 @@ static void r_arr(const char *sub, const char *name, const char *dt, int nd, con
 #define F_PTSET 512
 #define F_CONV 1024
 #define F_EXP 2048
+#define F_MULTIFAM 4096
 #define F_DDD (F_DESCR | F_DCLASS | F_UNITS)
 #define F_DDDU (F_DDD | F_UDATA)
 
@@ -570,6 +631,18 @@ static void ctx_read(int flags)
         } else if (rc != CG_NODE_NOT_FOUND) { nerr++; printf("X %s cg_exponents_info %d\n", RP, rc); }
     }
     if (flags & F_ARRAYS) read_arrays_here();
+    if ((flags & F_MULTIFAM) && !go()) {
+        int nm = 0;
+        rc = cg_nmultifam(&nm);
+        if (rc) { nerr++; printf("X %s cg_nmultifam %d\n", RP, rc); nm = 0; }
+        for (int i = 1; i <= nm; i++) {
+            char nam[64], fam[1024], sub[64];
+            if (go()) break;
+            if (cg_multifam_read(i, nam, fam)) { nerr++; continue; }
+            sprintf(sub, "/AdditionalFamilyName_t:%d", i);
+            r_str(sub, nam, fam);
+        }
+    }
     if ((flags & F_UDATA) && !go()) {
         n = 0;
         CHK(cg_nuser_data(&n));
@@ -579,7 +652,7 @@ static void ctx_read(int flags)
             if (cg_user_data_read(i, name)) { nerr++; continue; }
             push("UserDefinedData_t", i, "UserDefinedData_t", i);
             r_none(NULL, name);
-            if (GD < 18) ctx_read(F_DDD | F_ARRAYS | F_LOC | F_FAMNAME | F_ORD | F_PTSET | F_UDATA);
+            if (GD < 18) ctx_read(F_DDD | F_ARRAYS | F_LOC | F_FAMNAME | F_ORD | F_PTSET | F_UDATA | F_MULTIFAM);
             pop(1);
         }
     }
@@ -614,26 +687,46 @@ static void read_described(const char *kind, const char *label, const char *name
     pop(1);
 }
 
-static void read_common_t2(int is_base)
+#define T2_STATE 1
+#define T2_CONV 2
+#define T2_INT 4
+#define T2_EQ 8
+#define T2_ROT 16
+#define T2_PEQ 32
+
+static int diffusion_count(void) { int d = cur_idim ? cur_idim : cur_cell; return d == 1 ? 1 : d == 2 ? 3 : 6; }
+
+static void read_diffusion(void)
 {
-    /* children that bases and zones share: ReferenceState_t, ConvergenceHistory_t, IntegralData_t, FlowEquationSet_t,
-       RotatingCoordinates_t */
+    int dm[8] = {0}, rc;
+    if (go()) return;
+    rc = cg_diffusion_read(dm);
+    if (rc == CG_OK) { long long v[8]; int n = diffusion_count(); for (int i = 0; i < n; i++) v[i] = dm[i];
+                       r_ints1("/\"int[1+...+IndexDimension]\".DiffusionModel:1", "DiffusionModel", n, v); }
+    else if (rc != CG_NODE_NOT_FOUND) { nerr++; printf("X %s cg_diffusion_read %d\n", RP, rc); }
+}
+
+static void read_common_t2(int is_base, int mask)
+{
+    /* children that bases, zones and particle zones share: ReferenceState_t, ConvergenceHistory_t, IntegralData_t,
+       FlowEquationSet_t (+ governing equations, the ten model nodes, diffusion models), RotatingCoordinates_t,
+       ParticleEquationSet_t */
     int n, rc;
-    if (!go()) {
+    if ((mask & T2_STATE) && !go()) {
         char *d = NULL;
         rc = cg_state_read(&d);
         if (rc == CG_OK) { read_described("ReferenceState_t.ReferenceState", "ReferenceState_t", "ReferenceState", "none", 0,
                                           "ReferenceStateDescription", (d && *d) ? d : NULL, F_DDDU | F_ARRAYS); if (d) cg_free(d); }
         else if (rc != CG_NODE_NOT_FOUND) { nerr++; printf("X %s cg_state_read %d\n", RP, rc); }
     }
-    if (!go()) {
+    if ((mask & T2_CONV) && !go()) {
         char *d = NULL; int it = 0;
         rc = cg_convergence_read(&it, &d);
         if (rc == CG_OK) { read_described("ConvergenceHistory_t", "ConvergenceHistory_t", is_base ? "GlobalConvergenceHistory" : "ZoneConvergenceHistory",
                                           "ints", it, "NormDefinitions", (d && *d) ? d : NULL, F_DDDU | F_ARRAYS); if (d) cg_free(d); }
         else if (rc != CG_NODE_NOT_FOUND) { nerr++; printf("X %s cg_convergence_read %d\n", RP, rc); }
     }
-    if (!go()) {
+    if ((mask & T2_INT) && !go()) {
         n = 0; CHK(cg_nintegrals(&n));
         for (int i = 1; i <= n; i++) {
             char nm[64];
@@ -645,10 +738,15 @@ static void read_common_t2(int is_base)
             pop(1);
         }
     }
-    if (!go()) {
-        int ed = 0, gf = 0, f1, f2, f3, f4, f5;
-        rc = cg_equationset_read(&ed, &gf, &f1, &f2, &f3, &f4, &f5);
+    if ((mask & T2_EQ) && !go()) {
+        int ed = 0, gf = 0, mf[10] = {0};
+        rc = cg_equationset_read(&ed, &gf, &mf[0], &mf[1], &mf[2], &mf[3], &mf[4]);
         if (rc == CG_OK) {
+            static const char *ML[10] = {"GasModel_t", "ViscosityModel_t", "ThermalConductivityModel_t", "TurbulenceClosure_t",
+                "TurbulenceModel_t", "ThermalRelaxationModel_t", "ChemicalKineticsModel_t", "EMElectricFieldModel_t",
+                "EMMagneticFieldModel_t", "EMConductivityModel_t"};
+            CHK(cg_equationset_chemistry_read(&mf[5], &mf[6]));          /* same position as cg_equationset_read */
+            CHK(cg_equationset_elecmagn_read(&mf[7], &mf[8], &mf[9]));
             push("FlowEquationSet_t.FlowEquationSet", 1, "FlowEquationSet_t", 1);
             r_none(NULL, "FlowEquationSet");
             if (ed) { long long v = ed; r_ints1("/\"int\".EquationDimension:1", "EquationDimension", 1, &v); }
@@ -657,25 +755,183 @@ static void read_common_t2(int is_base)
                 CHK(cg_governing_read(&gt));
                 push("GoverningEquations_t.GoverningEquations", 1, "GoverningEquations_t", 1);
                 r_enum(NULL, "GoverningEquations", (int)gt);
+                read_diffusion();
                 ctx_read(F_DESCR | F_UDATA);
+                pop(1);
+            }
+            for (int m = 0; m < 10; m++) {
+                if (!mf[m] || go()) continue;
+                CGNS_ENUMT(ModelType_t) mt; char kind[80], nm[40];
+                CHK(cg_model_read(ML[m], &mt));
+                strcpy(nm, ML[m]); nm[strlen(nm) - 2] = 0;
+                sprintf(kind, "%s.%s", ML[m], nm);
+                push(kind, 1, ML[m], 1);
+                r_enum(NULL, nm, (int)mt);
+                if (m == 4) read_diffusion();
+                ctx_read(F_DDDU | F_ARRAYS);
                 pop(1);
             }
             ctx_read(F_DDDU);
             pop(1);
         } else if (rc != CG_NODE_NOT_FOUND) { nerr++; printf("X %s cg_equationset_read %d\n", RP, rc); }
     }
-    if (!go()) {
+    if ((mask & T2_PEQ) && !go()) {
+        int ed = 0, gf = 0, mf[5] = {0};
+        rc = cg_particle_equationset_read(&ed, &gf, &mf[0], &mf[1], &mf[2], &mf[3], &mf[4]);
+        if (rc == CG_OK) {
+            static const char *PL[5] = {"ParticleCollisionModel_t", "ParticleBreakupModel_t", "ParticleForceModel_t",
+                "ParticleWallInteractionModel_t", "ParticlePhaseChangeModel_t"};
+            push("ParticleEquationSet_t.ParticleEquationSet", 1, "ParticleEquationSet_t", 1);
+            r_none(NULL, "ParticleEquationSet");
+            if (ed) { long long v = ed; r_ints1("/\"int\".EquationDimension:1", "EquationDimension", 1, &v); }
+            if (gf && !go()) {
+                CGNS_ENUMT(ParticleGoverningEquationsType_t) gt;
+                CHK(cg_particle_governing_read(&gt));
+                push("ParticleGoverningEquations_t.ParticleGoverningEquations", 1, "ParticleGoverningEquations_t", 1);
+                r_enum(NULL, "ParticleGoverningEquations", (int)gt);
+                ctx_read(F_DESCR | F_UDATA);
+                pop(1);
+            }
+            for (int m = 0; m < 5; m++) {
+                if (!mf[m] || go()) continue;
+                CGNS_ENUMT(ParticleModelType_t) mt; char kind[90], nm[50];
+                CHK(cg_particle_model_read(PL[m], &mt));
+                strcpy(nm, PL[m]); nm[strlen(nm) - 2] = 0;
+                sprintf(kind, "%s.%s", PL[m], nm);
+                push(kind, 1, PL[m], 1);
+                r_enum(NULL, nm, (int)mt);
+                ctx_read(F_DDDU | F_ARRAYS);
+                pop(1);
+            }
+            ctx_read(F_DDDU);
+            pop(1);
+        } else if (rc != CG_NODE_NOT_FOUND) { nerr++; printf("X %s cg_particle_equationset_read %d\n", RP, rc); }
+    }
+    if ((mask & T2_ROT) && !go()) {
         float rate[3] = {0, 0, 0}, center[3] = {0, 0, 0};
         rc = cg_rotating_read(rate, center);
         if (rc == CG_OK) {
-            cgsize_t d = cur_phys;
             push("RotatingCoordinates_t.RotatingCoordinates", 1, "RotatingCoordinates_t", 1);
             r_none(NULL, "RotatingCoordinates");
             ctx_read(F_DDDU | F_ARRAYS);
-            (void)d;
             pop(1);
         } else if (rc != CG_NODE_NOT_FOUND) { nerr++; printf("X %s cg_rotating_read %d\n", RP, rc); }
     }
+}
+
+/* ---- tranche 3: particle zones */
+static void read_pzone(int B, int P)
+{
+    char name[64]; cgsize_t np = 0; long long v; int n;
+    CHK(cg_particle_read(fn, B, P, name, &np));
+    cur_idim = 1;
+    push("ParticleZone_t", P, "ParticleZone_t", P);
+    v = np; r_ints1(NULL, name, 1, &v);
+    ctx_read(F_DDDU | F_FAMNAME | F_MULTIFAM);
+    n = 0; CHK(cg_particle_ncoord_nodes(fn, B, P, &n));
+    for (int g = 1; g <= n; g++) {
+        char gname[64];
+        CHK(cg_particle_coord_node_read(fn, B, P, g, gname));
+        push("ParticleCoordinates_t", g, "ParticleCoordinates_t", g);
+        r_none(NULL, gname);
+        ctx_read(F_DDDU);
+        if (!strcmp(gname, "ParticleCoordinates")) {
+            int nc = 0;
+            CHK(cg_particle_ncoords(fn, B, P, &nc));
+            for (int c = 1; c <= nc; c++) {
+                char cname[64]; CGNS_ENUMT(DataType_t) dt; cgsize_t rmin = 1, rmax = np, ad = np;
+                CHK(cg_particle_coord_info(fn, B, P, c, &dt, cname));
+                void *buf = calloc((size_t)np + 2, dt_bytes(dt));
+                CHK(cg_particle_coord_read(fn, B, P, cname, dt, &rmin, &rmax, buf));
+                push("DataArray_t", c, "DataArray_t", c);
+                r_arr(NULL, cname, dt_name(dt), 1, &ad, buf, (size_t)np * dt_bytes(dt));
+                free(buf);
+                ctx_read(F_DDD | F_CONV | F_EXP);
+                pop(1);
+            }
+        } else read_arrays_here();
+        pop(1);
+    }
+    n = 0; CHK(cg_particle_nsols(fn, B, P, &n));
+    for (int s = 1; s <= n; s++) {
+        char sname[64]; int nf = 0; cgsize_t size = 0;
+        CHK(cg_particle_sol_info(fn, B, P, s, sname));
+        push("ParticleSolution_t", s, "ParticleSolution_t", s);
+        r_none(NULL, sname);
+        ctx_read(F_DDDU | F_PTSET);
+        CHK(cg_particle_sol_size(fn, B, P, s, &size));
+        CHK(cg_particle_nfields(fn, B, P, s, &nf));
+        for (int f = 1; f <= nf; f++) {
+            char fname[64]; CGNS_ENUMT(DataType_t) dt; cgsize_t rmin = 1, rmax = size, ad = size;
+            CHK(cg_particle_field_info(fn, B, P, s, f, &dt, fname));
+            void *buf = calloc((size_t)size + 2, dt_bytes(dt));
+            CHK(cg_particle_field_read(fn, B, P, s, fname, dt, &rmin, &rmax, buf));
+            push("DataArray_t", f, "DataArray_t", f);
+            r_arr(NULL, fname, dt_name(dt), 1, &ad, buf, (size_t)size * dt_bytes(dt));
+            free(buf);
+            ctx_read(F_DDD | F_CONV | F_EXP);
+            pop(1);
+        }
+        pop(1);
+    }
+    read_common_t2(0, T2_STATE | T2_INT | T2_PEQ);
+    { char pn[64]; int rc2 = cg_piter_read(fn, B, P, pn);
+      if (rc2 == CG_OK) { push("ParticleIterativeData_t", 1, "ParticleIterativeData_t", 1); r_none(NULL, pn); ctx_read(F_DDDU | F_ARRAYS); pop(1); }
+      else if (rc2 != CG_NODE_NOT_FOUND) { nerr++; printf("X %s cg_piter_read %d\n", RP, rc2); } }
+    pop(1);
+}
+
+/* BCProperty_t of the BC at the stack top / GridConnectivityProperty_t of a connectivity (one21 = 1: a 1to1 interface) */
+static void read_bprop(int B, int Z, int BC)
+{
+    push("BCProperty_t.BCProperty", 1, "BCProperty_t", 1);
+    if (cg_golist(fn, GB, GD, GL, GI) == CG_OK) {
+        CGNS_ENUMT(WallFunctionType_t) wt; CGNS_ENUMT(AreaType_t) at; float sa; char rn[64]; int rc;
+        r_none(NULL, "BCProperty");
+        ctx_read(F_DESCR | F_UDATA);
+        rc = cg_bc_wallfunction_read(fn, B, Z, BC, &wt);
+        if (rc == CG_OK) {
+            push("WallFunction_t.WallFunction", 1, "WallFunction_t", 1);
+            r_none(NULL, "WallFunction");
+            r_enum("/WallFunctionType_t.WallFunctionType:1", "WallFunctionType", (int)wt);
+            ctx_read(F_DESCR | F_UDATA);
+            pop(1);
+        } else if (rc != CG_NODE_NOT_FOUND) { nerr++; printf("X %s cg_bc_wallfunction_read %d\n", RP, rc); }
+        rc = cg_bc_area_read(fn, B, Z, BC, &at, &sa, rn);
+        if (rc == CG_OK) {
+            push("Area_t.Area", 1, "Area_t", 1);
+            r_none(NULL, "Area");
+            r_enum("/AreaType_t.AreaType:1", "AreaType", (int)at);
+            ctx_read(F_DESCR | F_UDATA | F_ARRAYS);
+            pop(1);
+        } else if (rc != CG_NODE_NOT_FOUND) { nerr++; printf("X %s cg_bc_area_read %d\n", RP, rc); }
+    }
+    pop(1);
+}
+static void read_cprop(int B, int Z, int I, int one21)
+{
+    push("GridConnectivityProperty_t.GridConnectivityProperty", 1, "GridConnectivityProperty_t", 1);
+    if (cg_golist(fn, GB, GD, GL, GI) == CG_OK) {
+        float a[3], b[3], c[3]; CGNS_ENUMT(AverageInterfaceType_t) at; int rc;
+        r_none(NULL, "GridConnectivityProperty");
+        ctx_read(F_DESCR | F_UDATA);
+        rc = one21 ? cg_1to1_average_read(fn, B, Z, I, &at) : cg_conn_average_read(fn, B, Z, I, &at);
+        if (rc == CG_OK) {
+            push("AverageInterface_t.AverageInterface", 1, "AverageInterface_t", 1);
+            r_none(NULL, "AverageInterface");
+            r_enum("/AverageInterfaceType_t.AverageInterfaceType:1", "AverageInterfaceType", (int)at);
+            ctx_read(F_DESCR | F_UDATA);
+            pop(1);
+        } else if (rc != CG_NODE_NOT_FOUND) { nerr++; printf("X %s cg_*_average_read %d\n", RP, rc); }
+        rc = one21 ? cg_1to1_periodic_read(fn, B, Z, I, a, b, c) : cg_conn_periodic_read(fn, B, Z, I, a, b, c);
+        if (rc == CG_OK) {
+            push("Periodic_t.Periodic", 1, "Periodic_t", 1);
+            r_none(NULL, "Periodic");
+            ctx_read(F_DDDU | F_ARRAYS);
+            pop(1);
+        } else if (rc != CG_NODE_NOT_FOUND) { nerr++; printf("X %s cg_*_periodic_read %d\n", RP, rc); }
+    }
+    pop(1);
 }
 
 /* a container with arrays and the usual children, reached by goto */
@@ -699,7 +955,7 @@ static void read_zone(int B, int Z)
     for (int i = 0; i < 3 * idim; i++) v[i] = size[i];
     r_ints(NULL, name, 2, dims, v);
     r_enum("/ZoneType_t.ZoneType:1", "ZoneType", (int)zt);
-    ctx_read(F_DDDU | F_ORD | F_FAMNAME);
+    ctx_read(F_DDDU | F_ORD | F_FAMNAME | F_MULTIFAM);
 
     /* ---- grids */
     n = 0; CHK(cg_ngrids(fn, B, Z, &n));
@@ -817,7 +1073,8 @@ static void read_zone(int B, int Z)
             free(p); free(nl);
             CHK(cg_boco_gridlocation_read(fn, B, Z, b, &loc));
             r_enum("/GridLocation_t.GridLocation:1", "GridLocation", (int)loc);
-            ctx_read(F_DDDU | F_ORD | F_FAMNAME);
+            ctx_read(F_DDDU | F_ORD | F_FAMNAME | F_MULTIFAM);
+            read_bprop(B, Z, b);
             for (int d = 1; d <= nds; d++) {
                 char dname[64]; CGNS_ENUMT(BCType_t) dbt; int dir = 0, neu = 0;
                 CHK(cg_dataset_read(fn, B, Z, b, d, dname, &dbt, &dir, &neu));
@@ -833,14 +1090,38 @@ static void read_zone(int B, int Z)
     }
     pop(1);
     /* ---- tranche 2 under the zone */
-    read_common_t2(0);
+    read_common_t2(0, T2_STATE | T2_CONV | T2_INT | T2_EQ | T2_ROT);
+    n = 0; CHK(cg_nsubregs(fn, B, Z, &n));
+    for (int s = 1; s <= n; s++) {
+        char sn[64], txt[64]; int dim = 0, bl = 0, gl = 0, shift = 0; CGNS_ENUMT(GridLocation_t) loc; CGNS_ENUMT(PointSetType_t) pt; cgsize_t np = 0;
+        long long v;
+        CHK(cg_subreg_info(fn, B, Z, s, sn, &dim, &loc, &pt, &np, &bl, &gl));
+        push("ZoneSubRegion_t", s, "ZoneSubRegion_t", s);
+        v = dim; r_ints1(NULL, sn, 1, &v);
+        /* the region name the API returns separately is the FIRST Descriptor_t child the writer created */
+        if (bl) { CHK(cg_subreg_bcname_read(fn, B, Z, s, txt)); r_str("/Descriptor_t:1", "BCRegionName", txt); shift = 1; }
+        if (gl) { CHK(cg_subreg_gcname_read(fn, B, Z, s, txt)); r_str("/Descriptor_t:1", "GridConnectivityRegionName", txt); shift = 1; }
+        if (!go()) {
+            int nd = 0;
+            CHK(cg_ndescriptors(&nd));
+            for (int i = 1; i <= nd; i++) {
+                char nm[64], sub[64]; char *text = NULL;
+                if (cg_descriptor_read(i, nm, &text)) { nerr++; continue; }
+                sprintf(sub, "/Descriptor_t:%d", i + shift);
+                r_str(sub, nm, text ? text : "");
+                if (text) cg_free(text);
+            }
+        }
+        ctx_read(F_DCLASS | F_UNITS | F_UDATA | F_LOC | F_RIND | F_FAMNAME | F_MULTIFAM | F_PTSET | F_ARRAYS);
+        pop(1);
+    }
     n = 0; CHK(cg_ndiscrete(fn, B, Z, &n));
     for (int d = 1; d <= n; d++) {
         char dn[64];
         CHK(cg_discrete_read(fn, B, Z, d, dn));
         push("DiscreteData_t", d, "DiscreteData_t", d);
         r_none(NULL, dn);
-        ctx_read(F_DDDU | F_LOC | F_RIND | F_ARRAYS);
+        ctx_read(F_DDDU | F_LOC | F_RIND | F_ARRAYS | F_PTSET);
         pop(1);
     }
     n = 0; CHK(cg_n_rigid_motions(fn, B, Z, &n));
@@ -886,6 +1167,7 @@ static void read_zone(int B, int Z)
             for (int q = 0; q < idim; q++) t3[q] = tr[q];
             r_ints1("/\"int[IndexDimension]\".Transform:1", "Transform", idim, t3);
             ctx_read(F_DESCR | F_UDATA | F_ORD);
+            read_cprop(B, Z, i, 1);
             pop(1);
         }
         k = 0; CHK(cg_nconns(fn, B, Z, &k));
@@ -915,6 +1197,7 @@ static void read_zone(int B, int Z)
               free(v); }
             free(p); free(dp);
             ctx_read(F_DESCR | F_UDATA | F_ORD);
+            read_cprop(B, Z, i, 0);
             pop(1);
         }
         k = 0; CHK(cg_nholes(fn, B, Z, &k));
@@ -952,6 +1235,61 @@ static void read_zone(int B, int Z)
     pop(1);
 }
 
+/* FamilyBCDataSet_t children of the FamilyBC_t at the stack top */
+static void read_fambc_datasets(void)
+{
+    int nd = 0;
+    if (go()) return;
+    CHK(cg_bcdataset_info(&nd));
+    for (int d = 1; d <= nd; d++) {
+        char dn[64]; CGNS_ENUMT(BCType_t) bt; int dir = 0, neu = 0;
+        if (go()) return;
+        CHK(cg_bcdataset_read(d, dn, &bt, &dir, &neu));
+        push("FamilyBCDataSet_t", d, "FamilyBCDataSet_t", d);
+        r_enum(NULL, dn, (int)bt);
+        ctx_read(F_DDDU);
+        if (dir) { push("BCData_t.DirichletData", 1, "BCData_t", CGNS_ENUMV(Dirichlet)); r_none(NULL, "DirichletData"); ctx_read(F_DDDU | F_ARRAYS); pop(1); }
+        if (neu) { push("BCData_t.NeumannData", 1, "BCData_t", CGNS_ENUMV(Neumann)); r_none(NULL, "NeumannData"); ctx_read(F_DDDU | F_ARRAYS); pop(1); }
+        pop(1);
+    }
+}
+/* the Family_t children of the Family_t at the stack top, through the node-context API (family tree) */
+static void read_nested_families(int depth)
+{
+    int n = 0;
+    if (depth > 3 || go()) return;
+    CHK(cg_node_nfamilies(&n));
+    for (int f = 1; f <= n; f++) {
+        char name[64]; int nb = 0, ng = 0, nn = 0;
+        if (go()) return;
+        CHK(cg_node_family_read(f, name, &nb, &ng));
+        push("Family_t", f, "Family_t", f);
+        r_none(NULL, name);
+        ctx_read(F_DESCR | F_UDATA | F_ORD);
+        for (int i = 1; i <= nb; i++) {
+            char bname[64]; CGNS_ENUMT(BCType_t) bt;
+            if (go()) break;
+            CHK(cg_node_fambc_read(i, bname, &bt));
+            push("FamilyBC_t", i, "FamilyBC_t", i);
+            r_enum(NULL, bname, (int)bt);
+            read_fambc_datasets();
+            pop(1);
+        }
+        if (!go()) {
+            CHK(cg_node_nfamily_names(&nn));
+            for (int i = 1; i <= nn; i++) {
+                char nm[64], fam[1024], sub[64];
+                if (go()) break;
+                CHK(cg_node_family_name_read(i, nm, fam));
+                sprintf(sub, "/FamilyName_t:%d", i);
+                r_str(sub, nm, fam);
+            }
+        }
+        read_nested_families(depth + 1);
+        pop(1);
+    }
+}
+
 static void read_family(int B, int F)
 {
     char name[64]; int nb = 0, ng = 0, nn = 0;
@@ -962,9 +1300,13 @@ static void read_family(int B, int F)
     for (int i = 1; i <= nb; i++) {
         char bname[64], sub[64]; CGNS_ENUMT(BCType_t) bt;
         CHK(cg_fambc_read(fn, B, F, i, bname, &bt));
-        sprintf(sub, "/FamilyBC_t:%d", i);
-        r_enum(sub, bname, (int)bt);
+        (void)sub;
+        push("FamilyBC_t", i, "FamilyBC_t", i);
+        r_enum(NULL, bname, (int)bt);
+        read_fambc_datasets();
+        pop(1);
     }
+    read_nested_families(1);
     for (int g = 1; g <= ng; g++) {
         char gname[64], cad[64]; char *file = NULL; int np = 0;
         CHK(cg_geo_read(fn, B, F, g, gname, &file, cad, &np));
@@ -1025,7 +1367,7 @@ static void do_read(const char *file)
         push("CGNSBase_t", B, NULL, 0);
         v[0] = cd; v[1] = pd; r_ints1(NULL, name, 2, v);
         ctx_read(F_DDDU);
-        read_common_t2(1);
+        read_common_t2(1, T2_STATE | T2_CONV | T2_INT | T2_EQ | T2_ROT | T2_PEQ);
         { CGNS_ENUMT(SimulationType_t) st; int rc2 = cg_simulation_type_read(fn, B, &st);
           if (rc2 == CG_OK && st != CGNS_ENUMV(SimulationTypeNull)) r_enum("/SimulationType_t.SimulationType:1", "SimulationType", (int)st);
           else if (rc2 != CG_OK && rc2 != CG_NODE_NOT_FOUND) { nerr++; printf("X %s cg_simulation_type_read %d\n", RP, rc2); } }
@@ -1040,6 +1382,9 @@ static void do_read(const char *file)
           else if (rc2 != CG_NODE_NOT_FOUND) { nerr++; printf("X %s cg_axisym_read %d\n", RP, rc2); } }
         n = 0; CHK(cg_nfamilies(fn, B, &n));
         for (int F = 1; F <= n; F++) read_family(B, F);
+        n = 0; CHK(cg_nparticle_zones(fn, B, &n));
+        for (int P = 1; P <= n; P++) read_pzone(B, P);
+        cur_idim = 0;
         n = 0; CHK(cg_nzones(fn, B, &n));
         for (int Z = 1; Z <= n; Z++) read_zone(B, Z);
         pop(0);
